@@ -29,6 +29,28 @@ CHECKS["C12"] = ("E1-pure",
   "Exhaustive within the alphabet and length bound; longer names sampled by proptest.",
   "Lexical containment only (no symlinks); absolute root. Trusts the harness's own lexical resolver and snapshot.",
   "DESIGN.md §5 C12")
+CHECKS["C05"] = ("E1-pure",
+  "proptest over choice-tape-built values of every codec type, exhaustive discrete header fields; round-trip (inverse) and announced-length oracles",
+  "Well-formed values of every public codec type (PDU with every directive and both file-data forms, all 2^6 header flag combinations x 4x4 id widths enumerated, "
+  "every metadata TLV, every filestore action x status, all 26 user operations incl. the private-field types via a layout writer, status reports) are built from "
+  "generated choice tapes inside the wire format's limits; decode(encode(x)) == x, encode(x).len() == encoded_len(x) and the length field on the wire equals the bytes "
+  "that follow the header. Sampled (hundreds of thousands of values per run), exhaustive only in the discrete header fields.",
+  "VariableID::encoded_len() is taken as the value width (the code base's convention); PDU::encoded_len() is compared modulo the 2 CRC octets; total PDU size <= 65535.",
+  "DESIGN.md §5 C05")
+CHECKS["C06"] = ("E1-pure",
+  "exhaustive short strings + every truncation / single-byte mutation / forced field of valid encodings + proptest random bytes; no-panic, fuel, allocation-bound and canonical-re-decode oracles",
+  "For 14 public decoders: all byte strings of length <= 2, every truncation and 6 single-byte mutations at every position of ~1500 valid encodings, length/id-length/first "
+  "octets forced to boundary values, and random strings; each decode runs under catch_unwind (overflow checks on), a read-call fuel of 10^6, and a thread-local heap "
+  "accounting allocator (peak <= 1 MiB); every accepted value must re-decode to itself after re-encoding with the length recomputed. Exhaustive for the stated mutation classes, sampled otherwise.",
+  "Wall-clock hangs are 'inconclusive' (watchdog, exit 2). Trusts the harness's counting allocator and reader.",
+  "DESIGN.md §5 C06")
+CHECKS["C15"] = ("E1-pure",
+  "exhaustive single-bit / near-pair / short-burst flips over a CRC-on corpus + constructive zero-syndrome patterns (meet-in-the-middle on the linear CRC) + proptest; oracle = rejected or equal to the original",
+  "Over valid CRC-on encodings of every PDU type (both file-size flags, 4 id-width combinations): every single-bit flip, every pair within 64 bits, every burst pattern up to "
+  "length 8 (5 on part of the corpus; thorough 12/16) at every position after octet 4, sampled far pairs / odd weights / long bursts, and constructed odd-weight patterns made of a "
+  "zero-syndrome 4-bit error plus a spare-bit flip. Each corrupted datagram must be rejected or decode to the original; the unaltered one must be accepted and carry the CCITT CRC.",
+  "Flips confined to bits after the 4 fixed header octets. Trusts the harness's own CRC-16 implementation for the constructive class.",
+  "DESIGN.md §5 C15")
 NOT_YET = {}
 
 def main():
